@@ -92,7 +92,9 @@ func (c *Conn) Read(ctx context.Context, buf []byte) (int, error) {
 
 	ch := make(chan ioret, 1)
 	go func() {
-		n, err := c.conn.Read(buf)
+		// Read through the buffered reader: bytes that arrived together with a
+		// preceding delimiter-terminated frame are held in its buffer.
+		n, err := c.reader.Read(buf)
 		ch <- ioret{n, err}
 	}()
 
